@@ -89,7 +89,7 @@ class bspline(object):
                 if w.sum() < 2:
                     bkpt = np.arange(2, dtype='f') * rangex + startx
                 else:
-                    bkpt = placed[w]
+                    bkpt = np.array(placed[w], dtype=np.result_type(placed, np.float32))
             elif bkspace is not None:
                 nbkpts = int(rangex/bkspace) + 1
                 if nbkpts < 2:
